@@ -1142,6 +1142,20 @@ def strip_refs(t):
     return t
 
 
+def recursion_loops(body):
+    """loop headers (for-loop `next` blocks) whose loop contains a call of the body to itself — the places where a tree
+    walker descends into its children; one header per loop nest (the outermost)"""
+    rec = [bi for bi, t in body.live_calls() if callee_name(t) == normalize(body.id)]
+    hs = []
+    for hb, ht in body.live_calls():
+        if callee_name(ht).endswith("::next") and "d:ForLoop" in ht["at"][1]:
+            loop = {x for x in body.reach_after(hb) if hb in body.reach_after(x)}
+            if any(r in loop for r in rec):
+                hs.append(hb)
+    outer = [hb for hb in hs if not any(h2 != hb and body.dominates(h2, hb) and hb in {x for x in body.reach_after(h2) if h2 in body.reach_after(x)} for h2 in hs)]
+    return rec, outer
+
+
 def return_assignments(body):
     """blocks that assign the return place: {'Ok': [...], 'Err': [...], 'residual': [...], 'other': [...]}"""
     out = {"Ok": [], "Err": [], "residual": [], "other": [], "true": [], "false": []}
